@@ -14,7 +14,7 @@ import (
 
 func init() {
 	register("C01",
-		"WIN-1 acceptance discipline in the receive loop: delivery to Recv and the advance of recvSeq happen only under the fact Seq == recvSeq of the received packet, recvSeq advances exactly once per accepted packet as (recvSeq+1) % s before delivery, the ACK carries the accepted packet's Seq and is sent before the advance, on the other leg nothing is delivered or advanced and a NACK carries recvSeq. WIN-2 single producer/consumer of recvDataChan and sendDataChan. WIN-3 retransmission buffer: addPacket labels the packet with top, stores it at content[top] and advances top by (top+1) % s; the send loop queues before the first transmission; resend walks i from a snapshot of base to a snapshot of top with step (i+1) % s and retransmits exactly content[i]. WIN-4 every store to the window base matches one of four (value, guard) templates (exact ACK, cumulative ACK, NACK==top, NACK in window). ORD-1 containsSequence is decided exactly, for all values, by evaluating its decision tree under all 13 weak orderings of (base, top, seq). INV: window fields stay below s, peer sequence numbers are validated before use. WIN-5/SEQSPACE/SIZE (as C09): admission only under size() < n, s = n+1 at every definition, size() in a recognised overflow-free closed form - the window discipline that keeps a resent window distinguishable from the next one. Not decided: the interplay of loss/duplication/delay with timers and the resend sync over all schedules (needs model checking); that Send retains the caller's slice.",
+		"WIN-1 acceptance discipline in the receive loop: delivery to Recv and the advance of recvSeq happen only under the fact Seq == recvSeq of the received packet, recvSeq advances exactly once per accepted packet as (recvSeq+1) % s before delivery, the ACK carries the accepted packet's Seq and is sent before the advance, on the other leg nothing is delivered or advanced and a NACK carries recvSeq. WIN-2 single producer/consumer of recvDataChan and sendDataChan. WIN-3 retransmission buffer: addPacket labels the packet with top, stores it at content[top] and advances top by (top+1) % s; the send loop queues before the first transmission; resend walks i from a snapshot of base to a snapshot of top with step (i+1) % s and retransmits exactly content[i]. WIN-4 every store to the window base matches one of four (value, guard) templates (exact ACK, cumulative ACK, NACK==top, NACK in window). ORD-1 containsSequence is decided exactly, for all values, by evaluating its decision tree under all 13 weak orderings of (base, top, seq). INV: window fields stay below s, peer sequence numbers are validated before use. WIN-5/SEQSPACE/SIZE (as C09): admission only under size() < n, s = n+1 at every definition, size() in a recognised overflow-free closed form - the window discipline that keeps a resent window distinguishable from the next one. WIN-3 also: the resend walk continues exactly while i != top snapshot and is left otherwise only after a transmission, and no path round the transmission exists inside the loop. SIZE is decided on the linear form of the returned uint8 expression. Not decided: the interplay of loss/duplication/delay with timers and the resend sync over all schedules (needs model checking); that Send retains the caller's slice.",
 		[]string{"uint8 arithmetic wraps; comparison results depend on the ordering of the operands only"},
 		runC01)
 	register("C09",
